@@ -7,6 +7,8 @@
 use std::borrow::Borrow;
 use std::marker::PhantomData;
 use std::mem::MaybeUninit;
+/// capacity of every stub map / set. The engine rewrites this line per Kani group (`map_cap` of the obligations):
+/// the dependency-graph code is only within CBMC's reach with 2-3 slots (its nodes hold two sets each).
 pub const CAP: usize = 4;
 
 pub struct HashMap<K, V, S = ()> {
@@ -17,7 +19,7 @@ pub struct HashMap<K, V, S = ()> {
 
 impl<K, V, S> HashMap<K, V, S> {
     pub fn with_hasher(_s: S) -> Self {
-        HashMap { slots: [MaybeUninit::uninit(), MaybeUninit::uninit(), MaybeUninit::uninit(), MaybeUninit::uninit()], len: 0, _s: PhantomData }
+        HashMap { slots: [const { MaybeUninit::uninit() }; CAP], len: 0, _s: PhantomData }
     }
     pub fn with_capacity_and_hasher(_c: usize, s: S) -> Self {
         Self::with_hasher(s)
@@ -310,7 +312,7 @@ impl<'a, T> Iterator for SetIter<'a, T> {
 }
 impl<T, S> HashSet<T, S> {
     pub fn with_hasher(_s: S) -> Self {
-        HashSet { slots: [MaybeUninit::uninit(), MaybeUninit::uninit(), MaybeUninit::uninit(), MaybeUninit::uninit()], len: 0, _s: PhantomData }
+        HashSet { slots: [const { MaybeUninit::uninit() }; CAP], len: 0, _s: PhantomData }
     }
     pub fn len(&self) -> usize {
         self.len
@@ -491,7 +493,7 @@ impl<K: Eq, V, S: Default> std::iter::FromIterator<(K, V)> for HashMap<K, V, S> 
 }
 impl<K: Clone, V: Clone, S> Clone for HashMap<K, V, S> {
     fn clone(&self) -> Self {
-        let mut m = HashMap { slots: [MaybeUninit::uninit(), MaybeUninit::uninit(), MaybeUninit::uninit(), MaybeUninit::uninit()], len: 0, _s: PhantomData };
+        let mut m = HashMap { slots: [const { MaybeUninit::uninit() }; CAP], len: 0, _s: PhantomData };
         let mut i = 0;
         while i < self.len {
             let p = self.at(i);
